@@ -230,6 +230,9 @@ def _residual_checks(ctx: Ctx, simu, sh: Shadow, u, key, tol_res, oracle="free-r
         err = np.linalg.norm(r) / max(np.linalg.norm(bi), 1e-300)
     else:
         rows = np.asarray(abs(K) @ np.abs(u)).ravel()[free] + np.abs(b[free])
+        # (a row whose dofs and neighbours are at rest - e.g. outside the stretch of a self-equilibrated pair of forces - has a scale of
+        # round-off size itself: rows are judged against at least 1e-3 of the largest row scale)
+        rows = np.maximum(rows, 1e-3 * rows.max()) if len(free) else rows
         err = float(np.max(np.abs(r) / np.maximum(rows, 1e-300))) if len(free) else 0.0
     ctx.check(oracle, err, tol_res, key + "/" + oracle, n_free=len(free))
     ctx.finite("finite-solution", u, key + "/finite")
